@@ -360,10 +360,11 @@ func (p *Parser) parseObjectLiteral() ast.Expression {
 			break
 		}
 
-		if p.peekTokenIs(token.COMMA) {
-			p.nextToken() // move to ","
-			p.nextToken() // skip ","
+		if !p.expectPeek(token.COMMA) { // move to ","
+			return nil
 		}
+
+		p.nextToken() // skip ","
 	}
 
 	return obj
@@ -972,7 +973,7 @@ func (p *Parser) parseEachStmt() *ast.EachStmt {
 func (p *Parser) parseBlockStmt() *ast.BlockStmt {
 	stmt := &ast.BlockStmt{Token: p.curToken}
 
-	for !p.curTokenIs(token.END) {
+	for !p.curTokenIs(token.END) && !p.curTokenIs(token.EOF) && !p.curTokenIs(token.ILLEGAL) {
 		block := p.parseStatement()
 
 		if block != nil {
